@@ -385,9 +385,9 @@ pub fn run(ctx: &Ctx, reject_mode: bool) -> Result<Evidence, String> {
         return Err(format!("the two recognisers disagree on {} strings (oracle defect; run with VERIF_DEBUG=1)", dis));
     }
     let mut ev = Evidence::new(if reject_mode {
-        "strings: exhaustive '$'+w and '$[?'+w+']' for all w up to the stated length over a 24-/20-symbol alphabet; the named near-miss table; 26 notable characters (DEL, C1 controls, no-break / zero-width / line-separator characters, BOM, non-characters, surrogate neighbours) at 37 kinds of position inside and outside tokens; single-edit mutants (character/token insert, delete, replace, transpose, blank, control character) of ABNF-derived and AST-rendered sentences. Each string is classified by two independent recognisers that must agree; every Invalid one must be rejected. Non-trivial = distinct Invalid strings that are mutants/near misses or exhaustive strings of length <= 5."
+        "strings: exhaustive '$'+w and '$[?'+w+']' for all w up to the stated length over a 24-/20-symbol alphabet; the named near-miss table; double faults (a surplus function argument that is itself invalid, ...), non-singular segments of 25 shapes in 13 value positions; every invalid string also through query_with_path / query_only_path on scalar, empty and small root documents; 40 notable characters (DEL, C1 controls, no-break / zero-width / line-separator characters, BOM, non-characters, surrogate neighbours) at 37 kinds of position inside and outside tokens; single-edit mutants (character/token insert, delete, replace, transpose, blank, control character) of ABNF-derived and AST-rendered sentences. Each string is classified by two independent recognisers that must agree; every Invalid one must be rejected. Non-trivial = distinct Invalid strings that are mutants/near misses or exhaustive strings of length <= 5."
     } else {
-        "strings: ABNF-driven random derivations of jsonpath-query; notable characters at every kind of position; 3-/4-operand formulas in 13 contexts with a blank at every single slot and everywhere; long queries of 2-/3-/4-byte characters at every byte alignment; deep and long valid queries; AST-driven renderings in all spelling dimensions (blank at every S slot, both quote styles, every escape form in both hex cases, surrogate pairs, shorthand/bracket, number formats, unions, parentheses, nested filters, functions); curated valid spellings; the exhaustive short-string families. Each string classified Valid by two independent recognisers must be accepted by parse_json_path (and query() must not return Err). Non-trivial = distinct Valid strings using at least one optional construct."
+        "strings: ABNF-driven random derivations of jsonpath-query; notable characters at every kind of position; text that looks like syntax inside strings; number literals with long digit runs; 3-/4-operand formulas in 13 contexts with a blank at every single slot and everywhere; long queries of 2-/3-/4-byte characters at every byte alignment; deep and long valid queries; AST-driven renderings in all spelling dimensions (blank at every S slot, both quote styles, every escape form in both hex cases, surrogate pairs, shorthand/bracket, number formats, unions, parentheses, nested filters, functions); curated valid spellings; the exhaustive short-string families. Each string classified Valid by two independent recognisers must be accepted by parse_json_path (and query() must not return Err). Non-trivial = distinct Valid strings using at least one optional construct."
     });
     ev.set("exhaustive", json!(true));
     ev.set("exhaustive_families", json!({"general_alphabet": GENERAL.iter().collect::<String>(), "filter_alphabet": FILTER.iter().collect::<String>(), "max_w_len": max_len, "general_strings": n_gen, "filter_strings": n_flt}));
